@@ -6,6 +6,7 @@ from checks import callcommon, ctxcommon
 from framework import Case
 
 PROP = "C07"
+GENERATED = ['DtypeTables']  # generated files this check's tie depends on
 LEAN_MODULES = ["Properties.C07"]
 RULE = (
     "seeded dltyped functions (1-4 parameters, tuples, optionals, providers, return hint) called with inputs that are conforming except "
@@ -20,7 +21,7 @@ def cases(tier, rng, run):
     out = [Case(l, "corpus") for l in run.corpus_lines()]
     for _ in range(9000 if tier == "quick" else 150000):
         c = gen_ctx.gen_ctx(rng, perturb=(1,), tuple_p=0.25, ret_p=0.6)
-        out.append(Case(c.call_line("func", rng.choice(["pos", "kw", "mixed"])), "call", {"ctx": c}))
+        out.append(Case(c.call_line("func", rng.choice(["pos", "kw", "mixed", "fwd"])), "call", {"ctx": c}))
     return out
 
 
